@@ -18,10 +18,10 @@ theorem eval_dynamic_calls : Generated.evalDynamicCalls = Expected.evalDynamicCa
 theorem evaluator_writes : Generated.evaluatorWrites = Expected.evaluatorWrites := rfl
 theorem evaluator_fields : Generated.evaluatorFieldTypes = Expected.evaluatorFieldTypes := rfl
 theorem scope_fields : Generated.scopeFieldTypes = Expected.scopeFieldTypes := rfl
-/-- The evaluator is assigned only inside `apply` methods of EvaluatorOption implementations. -/
+/-- The evaluator is assigned only inside the method that the EvaluatorOption interface requires of its implementations. -/
 theorem evaluator_written_only_by_options : ∀ w ∈ Generated.evaluatorWrites,
-    w = "method apply of an EvaluatorOption implementation: store field of type bool" ∨
-    w = "method apply of an EvaluatorOption implementation: store field of type evaluation.BigSegmentProvider" ∨
-    w = "method apply of an EvaluatorOption implementation: store field of type ldlog.BaseLogger" := by decide
+    w = "the EvaluatorOption method of an implementation: store field of type bool" ∨
+    w = "the EvaluatorOption method of an implementation: store field of type evaluation.BigSegmentProvider" ∨
+    w = "the EvaluatorOption method of an implementation: store field of type ldlog.BaseLogger" := by decide
 
 end LD.Obligations
